@@ -232,7 +232,7 @@ class AbsExec:
             if r is not NotImplemented:
                 return r
         if isinstance(a, Tok) or isinstance(b, Tok) or isinstance(a, Obj) or isinstance(b, Obj):
-            sym = {ast.Add: "+", ast.Sub: "-", ast.Mult: "*", ast.FloorDiv: "//", ast.Mod: "%", ast.Div: "/"}.get(type(op), "?")
+            sym = {ast.Add: "+", ast.Sub: "-", ast.Mult: "*", ast.FloorDiv: "//", ast.Mod: "%", ast.Div: "/", ast.LShift: "<<", ast.BitOr: "|", ast.BitAnd: "&"}.get(type(op), "?")
             return Tok(f"({_show(a)} {sym} {_show(b)})")
         try:
             if isinstance(op, ast.Add):
@@ -247,6 +247,16 @@ class AbsExec:
                 return a % b
             if isinstance(op, ast.Div):
                 return a / b
+            if isinstance(op, ast.LShift):
+                return a << b
+            if isinstance(op, ast.RShift):
+                return a >> b
+            if isinstance(op, ast.BitOr):
+                return a | b
+            if isinstance(op, ast.BitAnd):
+                return a & b
+            if isinstance(op, ast.BitXor):
+                return a ^ b
         except Exception as ex:  # noqa: BLE001
             raise Undecided(f"{self.where}:{getattr(node, 'lineno', 0)}: {type(ex).__name__} in {ast.unparse(node)[:60]}") from None
         raise Undecided(f"{self.where}:{getattr(node, 'lineno', 0)}: operator {type(op).__name__} not modelled")
